@@ -20,6 +20,7 @@ import (
 // or the decoder) of every length-bounded field of the exchange codec.
 type c27Bounds struct {
 	batchOK, batchOver, resultOK, resultOver []kit.Value
+	batchFail, resultFail                    []kit.Value
 }
 
 type c27Proposal struct {
@@ -126,6 +127,31 @@ func c27ReplicationValues(t *testing.T) (batches, results []kit.Value, bnd c27Bo
 			replication.ExchangeItemResult{RequestID: 2, Probe: replication.ProbeResult{Proof: probeProof, State: state2}},
 			replication.ExchangeItemResult{RequestID: 3, Fetch: replication.FetchResult{Proof: fetchProof, State: state1, Proposals: []replication.RecoveryProposal{{Manifest: p1.manifest, Records: p1.records}}}},
 		)},
+	}
+	// ---- failing encodes (section "sequences"): every rejecting path of the two encoders, most of
+	// them after the first item was already appended to the output
+	badKind := replication.ExchangeItem{RequestID: 2, Kind: 99}
+	nilReplicate := replication.ExchangeItem{RequestID: 2, Kind: replication.ExchangeReplicate}
+	twoBodies := item(2, rep1)
+	twoBodies.Probe = &probeNil
+	bnd.batchFail = []kit.Value{
+		{Label: "version-0", V: replication.ExchangeBatch{Version: 0, Priority: fg, Items: []replication.ExchangeItem{item(1, rep1)}}},
+		{Label: "priority-invalid", V: replication.ExchangeBatch{Version: replication.ExchangeVersion, Priority: 99, Items: []replication.ExchangeItem{item(1, rep1)}}},
+		{Label: "no-items", V: batch(fg)},
+		{Label: "first-item-request-id-0", V: batch(fg, item(0, rep1))},
+		{Label: "second-item-request-id-0", V: batch(fg, item(1, rep2), item(0, rep1))},
+		{Label: "second-item-nil-replicate", V: batch(fg, item(1, rep2), nilReplicate)},
+		{Label: "second-item-two-bodies", V: batch(fg, item(1, rep2), twoBodies)},
+		{Label: "second-item-unknown-kind", V: batch(fg, item(1, rep2), badKind)},
+		{Label: "second-item-probe-in-background", V: batch(bg, item(1, rep2), item(2, probeMany))},
+		{Label: "third-item-fetch-in-background", V: batch(bg, item(1, rep1), item(2, rep2), item(3, fetch1))},
+	}
+	okItem := replication.ExchangeItemResult{RequestID: 1, Fetch: replication.FetchResult{Proof: fetchProof, State: state2, Proposals: []replication.RecoveryProposal{{Manifest: p2.manifest, Records: p2.records}}}}
+	bnd.resultFail = []kit.Value{
+		{Label: "version-0", V: replication.ExchangeBatchResult{Version: 0, Items: []replication.ExchangeItemResult{okItem}}},
+		{Label: "no-items", V: res()},
+		{Label: "first-item-request-id-0", V: res(replication.ExchangeItemResult{})},
+		{Label: "second-item-request-id-0", V: res(okItem, replication.ExchangeItemResult{RequestID: 0, Probe: replication.ProbeResult{Proof: probeProof}})},
 	}
 	// ---- declared maxima: MaxExchangeBatchItems = maxRecoveryProbeIndexes =
 	// maxRecoveryReplacementProposals = 256 elements, MaxExchangeBatchBytes = 4 MiB per frame
@@ -247,6 +273,7 @@ func TestVerifC27Replication(t *testing.T) {
 		Values:          batches,
 		Boundary:        bnd.batchOK,
 		OverMax:         bnd.batchOver,
+		FailEncode:      bnd.batchFail,
 		Headers:         [][]byte{{ver}, {ver, 0}, {ver, 1}, {ver, 0, 1}, {ver, 0, 1, 1}, {ver, 0, 1, 1, 1}, {ver, 0, 1, 1, 2}, {ver, 0, 1, 1, 3}},
 	}
 	resultCodec := &kit.Codec{
@@ -266,6 +293,7 @@ func TestVerifC27Replication(t *testing.T) {
 		Values:          results,
 		Boundary:        bnd.resultOK,
 		OverMax:         bnd.resultOver,
+		FailEncode:      bnd.resultFail,
 		Headers:         [][]byte{{ver}, {ver, 1}, {ver, 1, 1}, {ver, 1, 1, 1}, {ver, 2}},
 	}
 	kit.Main(t, "C27", func() []*kit.Codec { return []*kit.Codec{batchCodec, resultCodec} }, func(r *ev.R, replaying bool) {
